@@ -10,12 +10,12 @@ package main
 
 import (
 	"fmt"
-	"reflect"
 	"go/ast"
 	"go/token"
 	"go/types"
 	"os"
 	"path/filepath"
+	"reflect"
 	"sort"
 	"strings"
 
@@ -48,6 +48,26 @@ type Target struct {
 	// in the abstraction; only sound when the function treats them alike).
 	NilIsEmpty bool
 
+	// LocalErrorIdentity: local variables that hold an error value created once in
+	// the function and never reassigned. Such a value gets an identity of its
+	// own (typ "<pkg>.<Type>#<var>"), so that `errors.Is(err, v)` / `err == v`
+	// can be decided. ASSUMPTION (printed into the generated definition): no
+	// OTHER error that Go's == would find equal to it (same type, identical
+	// message text) reaches those comparisons.
+	LocalErrorIdentity []string
+	// Effect (oracles): the callee acts on the outside world (file system,
+	// network). The oracle takes the current `world` first and returns the new
+	// world first: `world -> args -> world * results`. Every function that calls
+	// one (directly or through targets) takes and returns the world in the same
+	// way; the order of the effects is the order of evaluation of the Go code.
+	Effect bool
+	// AnyReceiver (oracles that are methods of an interface type declared
+	// Opaque): the receiver is NOT an argument of the oracle, which then stands
+	// for the method of one fixed receiver. ASSUMPTION (listed at the end of the
+	// generated file): all receivers the translated code calls the method on are
+	// that one value. Without the option the (non-nil) receiver is the first
+	// argument.
+	AnyReceiver bool
 	// OutParams (oracles): pointer parameters the callee writes through. The
 	// oracle receives the current pointee and returns the new pointee first
 	// (before its results); the caller's variable is rebound.
